@@ -228,6 +228,11 @@ def render(spec):
     if has_lib:
         em.code("import lib")
     em.code("cap = 0")
+    if spec.get("hazard") == "map_shrink":
+        # legal but unusual: a map callback shrinks the very list being mapped (prints nothing; must not disturb what follows)
+        em.code("hz: [int...] = [1, 2, 3, 4]\nhq = hz.map(fn(x: int) -> int {\n\tif hz.len() > 1 {\n\t\thr = hz.remove(0)\n\t}\n\treturn x\n})")
+    elif spec.get("hazard") == "filter_shrink":
+        em.code("hz: [int...] = [1, 2, 3, 4]\nhq = hz.filter(fn(x: int) -> bool {\n\thz.clear()\n\treturn true\n})")
     emit_units(em, range(0, split), root_file)
     out = []
     if modtop:
@@ -319,6 +324,7 @@ def generate(rng, failure=None, depth=None):
             "split": rng.range(0, n) if (n and rng.chance(1, 2)) else None}
     # where in the innermost body the failing operation sits (None: directly in the body, or in an `if` when a successful pre-run exists)
     # (the property speaks of call depth 0-6; recursion adds a few activations per link, far from the interpreter's stack limit)
+    spec["hazard"] = rng.weighted([(None, 8), ("map_shrink", 1), ("filter_shrink", 1)])
     spec["rec_depth"] = rng.weighted([(2, 5), (1, 2), (4, 2), (7, 1)])
     spec["wrap"] = rng.weighted([(None, 4), ("if", 2), ("else", 2), ("while", 2), ("from", 2), ("deep", 1)])
     return spec
@@ -337,10 +343,11 @@ def shrink(spec):
             c = dict(spec)
             c[key] = False
             yield c
-    if spec.get("wrap"):
-        c = dict(spec)
-        c["wrap"] = None
-        yield c
+    for key in ("wrap", "hazard"):
+        if spec.get(key):
+            c = dict(spec)
+            c[key] = None
+            yield c
     if spec.get("split") is not None:
         c = dict(spec)
         c["split"] = None
